@@ -117,14 +117,15 @@ mod verif_extdata {
     }
 
     /// Concrete adversarial and well-formed locations (incl. the longer recognised extensions).
-    const SAMPLES: [&str; 14] = [
+    const SAMPLES: [&str; 18] = [
         "m.data", "m.onnx_data_1", "m.onnx.data", "m.data/", "m.data/.",
         "../m.data", "/m.data", "d/m.data", "m.data/..", "d/../m.data", "./../m.data",
         "m.data/x", "..data/../m", ".data",
+        "m.txt", "m.xdata", "data", "m.",
     ];
 
     #[kani::proof]
-    #[kani::unwind(16)]
+    #[kani::unwind(20)]
     pub fn path_predicate_samples() {
         let mut n_allowed = 0;
         let mut i = 0;
